@@ -241,7 +241,7 @@ pub fn run(sub: &str, opts: &Opts, w: &mut dyn Write) {
   let pages: Vec<u8> = if opts.thorough { (0..=255u8).collect() } else { QUICK_PAGES.to_vec() };
   if sub == "inv" {
     let mut rng = Rng::new(opts.seed ^ 0xc16f);
-    let reps = if opts.thorough { 6 } else { 2 };
+    let reps = if opts.thorough { 24 } else { 2 };
     let mut idx = 0usize;
     for rep in 0..reps { for &page in pages.iter() {
       idx += 1;
@@ -268,9 +268,10 @@ pub fn run(sub: &str, opts: &Opts, w: &mut dyn Write) {
     return;
   }
   let mut rng = Rng::new(opts.seed ^ 0xc16);
-  let ncfg = if opts.thorough { 3 } else { 1 };
+  let ncfg = if opts.thorough { 6 } else { 1 };
+  let rounds = if opts.thorough { 2 } else { 1 };
   let mut idx = 0usize;
-  for &page in pages.iter() { for style in 0..4u64 { for c in 0..ncfg {
+  for _round in 0..rounds { for &page in pages.iter() { for style in 0..4u64 { for c in 0..ncfg {
     idx += 1;
     // the 160-batch style is long: one configuration per page
     if style == 1 && c > 0 { continue; }
@@ -278,5 +279,5 @@ pub fn run(sub: &str, opts: &Opts, w: &mut dyn Write) {
     let evs = gen_scenario(&mut rng, page, style);
     if idx % nshards != shard { continue; }
     main_case(t, r, m, &evs, w);
-  }}}
+  }}}}
 }
